@@ -3,7 +3,7 @@ from .. import config, corpus, gen
 from ..core import Ctx, finish
 from ..rules_vector import Checker
 from ..rules_own import discover_owners, ownership, ctor_alloc_relation
-from ..rules_elem import rule_E, rule_EQ
+from ..rules_elem import rule_E, rule_EQ, rule_moved_from
 from ._common import ASSUME, TRUSTED
 
 
@@ -14,6 +14,7 @@ def rule(tu, rec):
     ownership(ck, owners, "OWN")
     rule_E(ck, owners)
     rule_EQ(ck)
+    rule_moved_from(ck)
 
 
 def configs(tier, seed):
